@@ -2,7 +2,6 @@
 
 from __future__ import annotations
 
-import itertools as itt
 from collections.abc import Collection, Iterable
 from typing import TYPE_CHECKING, Any
 
@@ -108,13 +107,11 @@ class MappingServiceGraph(Graph):
         subj_query, pred_query, obj_query = triple
         if pred_query in self.query_predicates:
             if subj_query is None and obj_query is not None:
-                subjects = self._expand_pair_all(obj_query)
-                for subj, pred in itt.product(subjects, self.query_predicates):
-                    yield subj, pred, obj_query
+                for subj in self._expand_pair_all(obj_query):
+                    yield subj, pred_query, obj_query
             elif subj_query is not None and obj_query is None:
-                objects = self._expand_pair_all(subj_query)
-                for obj, pred in itt.product(objects, self.query_predicates):
-                    yield subj_query, pred, obj
+                for obj in self._expand_pair_all(subj_query):
+                    yield subj_query, pred_query, obj
 
 
 def get_flask_mapping_blueprint(
